@@ -246,12 +246,15 @@ impl Property for C24 {
                 }
                 if k == 0 && mode == 2 {
                     // map key: string or integer; a missing key selects the empty group
+                    // map keys are typed: a string key is selected by a field name or a string accessor
+                    // only; integer accessors select integer keys (this scenario inserts string keys only,
+                    // so they select the empty group)
                     let key: Option<String> = match st {
                         LensStep::Field(f) => Some(f.clone()),
-                        LensStep::Idx(i) => Some(i.to_string()),
+                        LensStep::Idx(i) => Some(format!("<int {}>", i)),
                         LensStep::ByScalar(_) => match &accessor {
                             Value::String(s) => Some(s.clone()),
-                            Value::Number(n) if n.is_i64() || n.is_u64() => Some(n.to_string()),
+                            Value::Number(n) if n.is_i64() || n.is_u64() => Some(format!("<int {}>", n)),
                             _ => None,
                         },
                     };
